@@ -1,6 +1,7 @@
 package main
 
 import (
+	"bytes"
 	"fmt"
 	"math/rand"
 	"sort"
@@ -33,6 +34,12 @@ type writeOpts struct {
 // encodeDoc re-encodes a UTF-8 YAML document.
 func encodeDoc(doc []byte, enc string) []byte {
 	switch enc {
+	case "crlf":
+		// the line ends of another platform (texts with line breaks are written with escapes by the model)
+		return bytes.ReplaceAll(doc, []byte("\n"), []byte("\r\n"))
+	case "multidoc":
+		// a stream of several documents: the first one is the piece
+		return append(append([]byte{}, doc...), []byte("---\n- values: [\"3\"]\n  meta: {txt: \"second document\"}\n---\n- values: [\"2\"]\n")...)
 	case "utf8bom":
 		return append([]byte("\xef\xbb\xbf"), doc...)
 	case "utf16le", "utf16be":
@@ -129,6 +136,14 @@ func randWriteOpts(r *rand.Rand) writeOpts {
 		o.outDev = []string{"/dev/stdout", "/dev/fd/1", "/proc/self/fd/1"}[r.Intn(3)]
 	}
 	switch r.Intn(16) {
+	case 3, 4:
+		if !o.style.RawTabs {
+			o.encoding = "crlf"
+		}
+	case 5:
+		if !o.style.JSON {
+			o.encoding = "multidoc"
+		}
 	case 0:
 		o.encoding = "utf8bom"
 	case 1:
